@@ -442,9 +442,23 @@ let run_one (type f) (f : f fld) (op : string) (g : string list list) : string =
       end
   | _ -> "UNKNOWN-OP"
 
+(* extrap_lowdeg b <offset> <log2 n> | <polynomial> | <points>: specification only - extrapolating the codeword of a
+   low-degree polynomial gives that polynomial's values at the points (Horner with zarith); the model is not run, so
+   codeword lengths far beyond what the model can execute keep the tie to the code alive *)
+let extrap_lowdeg (rest : string list) : string =
+  match split_groups rest with
+  | [_; coeffs; pts] ->
+      let md x = ZZ.erem x (ZZ.of_string "18446744069414584321") in
+      let cs = List.rev_map (fun c -> md (ZZ.of_string c)) coeffs in
+      let ev x = List.fold_left (fun acc c -> md (ZZ.add (ZZ.mul acc x) c)) ZZ.zero cs in
+      let vals = List.map (fun x -> ZZ.to_string (ev (md (ZZ.of_string x)))) pts in
+      String.concat " " (string_of_int (List.length pts) :: vals)
+  | _ -> "BAD-CASE"
+
 let run (op : string) (a : string list) : string =
   match a with
   | [] -> "BAD-CASE"
+  | "b" :: rest when op = "extrap_lowdeg" -> extrap_lowdeg rest
   | field :: rest ->
       let g = split_groups rest in
       (match field with
